@@ -268,6 +268,57 @@ def k3_missing_input(cmd: int, exists: bool, flags: int) -> bool:
     return kind == 'ok' and len(reached) == 1 and reached[0]['df_path'] == '/cwd/data.csv'
 
 
+# ---- K4: the file front ends hand the library exactly what the flags said --------------------------------------
+PATHS = ['data.csv', 'dir.v1/data.csv', 'dump.csv.d/dump.csv', 'sales.csv_export.csv', 'x.parquet', 'a.b.c.csv']
+
+
+def k4_forwarding(cmd: int, pidx: int, with_cons: bool, eps: bool, tc: bool, extra: int) -> bool:
+    """
+    pre: 0 <= cmd < 2 and 0 <= pidx < len(PATHS) and 0 <= extra < 4
+    post: __return__
+    """
+    cmd, pidx, extra = _c(cmd, 2), _c(pidx, len(PATHS)), _c(extra, 4)
+    path = PATHS[pidx]
+    calls = []
+    frame = object()
+    kw = {}
+    if eps:
+        kw['epsilon'] = 0.1
+    if tc:
+        kw['type_checking'] = 'strict'
+    if cmd == 0:
+        kw.update([{}, {'report': 'fields'}, {'ascii': True}, {'report': 'all', 'ascii': True}][extra])
+    else:
+        kw.update([{}, {'write_all': True}, {'per_constraint': True, 'output_fields': ['a']},
+                   {'index': True, 'boolean_ints': True, 'interleave': True}][extra])
+    cons = 'given.tdda' if with_cons else None
+    mod = [pv, pdet][cmd]
+    saved = (mod.load_df, getattr(mod, 'verify_df', None), getattr(mod, 'detect_df', None))
+    mod.load_df = lambda p, **k: (calls.append(('load', p)), frame)[1]
+    if cmd == 0:
+        mod.verify_df = lambda df, c, **k: (calls.append(('lib', df, c, dict(k))), 'RESULT')[1]
+    else:
+        mod.detect_df = lambda df, c, **k: (calls.append(('lib', df, c, dict(k))), 'RESULT')[1]
+    try:
+        if cmd == 0:
+            kind, r = _quiet(lambda: pv.verify_df_from_file(path, cons, verbose=False, **kw))
+        else:
+            kind, r = _quiet(lambda: pdet.detect_df_from_file(path, cons, outpath='bads.csv', verbose=False, **kw))
+    finally:
+        mod.load_df = saved[0]
+        if cmd == 0:
+            mod.verify_df = saved[1]
+        else:
+            mod.detect_df = saved[2]
+    import os.path
+    want_cons = cons if with_cons else os.path.splitext(path)[0] + '.tdda'
+    want_kw = dict(kw)
+    if cmd == 1:
+        want_kw.update({'outpath': 'bads.csv', 'rownumber_is_index': False})
+    return (kind == 'ok' and r == 'RESULT' and len(calls) == 2 and calls[0] == ('load', path)
+            and calls[1][1] is frame and calls[1][2] == want_cons and calls[1][3] == want_kw)
+
+
 def _obs():
     obs = []
     for n, tier, to in ((2, 'quick', 300), (3, 'thorough', 2400)):
@@ -289,6 +340,13 @@ def _obs():
                       '<=2 arguments from a menu of %d words' % len(WORDS), param={'cmd': cmd}, timeout=300,
                       stubs=['extension methods record instead of running',
                              'load_all_extensions -> the pandas extension']))
+    obs.append(Ob('K4', 'k4_forwarding', 'verify_df_from_file / detect_df_from_file load the named file once and call '
+                  'the library function on that frame with exactly the keyword arguments they were given (epsilon, '
+                  'type_checking, report/detection options) and the constraints file named - by default the input '
+                  'path with its extension replaced by .tdda',
+                  '2 commands x %d input paths (dots in directory and stem, the extension text repeated) x '
+                  'constraints given/implicit x epsilon x type_checking x 4 option sets' % len(PATHS), timeout=300,
+                  stubs=['load_df / verify_df / detect_df -> recorders']))
     obs.append(Ob('K3', 'k3_save_df', 'save_df: "-"/None => standard output only, no error; known text extensions => '
                   'one CSV write to that path; parquet => one parquet write; unknown extension => an exception before '
                   'any write', '3 stems x %d extensions, plus "-" and None' % len(EXTS), timeout=120,
